@@ -205,6 +205,23 @@ P('C17',
   thorough=dict(cases=2500000, max_size=8000, max_seconds=1500, fuzz=dict(seconds=240, jobs=8, max_len=8000)),
   )
 
+P('C13',
+  technique='property-based testing: generated reception histories over VPS, 8/30 format 1 and 2 and WSS (repeats, station changes, isolated corrupted words, interleaved carriers); oracle = per-carrier debounce model, transmitter-side value decoders, Teletext cache witness page',
+  rule='history = 10-120 frames; scenario A: one carrier (VPS, 8/30 format 1 or 2) with values from {two known stations, an unknown CNI, one-off corrupted words} in runs '
+       'of 1-6; scenario B: one station on 2-3 carriers interleaved by a generated schedule with isolated corrupted receptions, then a change to another known station; '
+       'scenario C: WSS 625 words (8 aspect codes x film bit x subtitle bits, valid or invalid parity) in runs of 1-8; a Teletext witness page is cached before. '
+       'Non-trivial: an isolated deviation between identical receptions, or a station change while the witness page is cached, or a WSS word announced after another one; distinct = hash of consumed choices.',
+  level_text='Generated-history search with an explicit oracle: single-carrier histories are compared event by event with the documented debounce (announce on the second '
+             'identical reception, not again while unchanged, NETWORK only when the identified station changes, cache witness dropped exactly then); all histories: every '
+             'NETWORK / NETWORK_ID event reports the CNI last received on each carrier and requires a repeated identifier in its frame, PROG_ID and LOCAL_TIME values equal the '
+             'transmitted fields (VPS programme ids only after a repeat), an isolated deviation raises no NETWORK event and keeps the cache, a change between known stations raises '
+             'exactly one NETWORK event and drops the cache; WSS: no ASPECT event before 4 identical receptions or with wrong group-1 parity, values as transmitted, a changed ratio / film / subtitle value is announced. Sampling only.',
+  level_note='Trusted: models/bsd_enc.h transmitters, the CNI table of the library for station names / ids (the oracle uses its own first-match lookup). XDS network announcements are checked by C09 part B. The shared confirmation cycle of the decoder makes "not announced again" carrier-dependent; it is asserted exactly for single-carrier histories only.',
+  design_ref='DESIGN.md section 2, C13',
+  quick=dict(cases=250000, max_size=1500, max_seconds=120),
+  thorough=dict(cases=8000000, max_size=1500, max_seconds=1500, fuzz=dict(seconds=180, jobs=8, max_len=1500)),
+  )
+
 NOT_YET = {}
 
 
